@@ -86,7 +86,7 @@ impl<'a, IntT: for<'b> UInt<'b>> SplitKmer<'a, IntT> {
         is_reads: bool,
         rc: bool,
     ) -> Option<(IntT, IntT, u8, Option<NtHashIterator>)> {
-        if *idx + k >= seq_len {
+        if *idx + k > seq_len {
             return None;
         }
         let mut upper = IntT::zero_init();
@@ -118,7 +118,7 @@ impl<'a, IntT: for<'b> UInt<'b>> SplitKmer<'a, IntT> {
             } else {
                 // Start again, skipping over N
                 *idx += i + 1;
-                if *idx + k >= seq_len {
+                if *idx + k > seq_len {
                     return None;
                 }
                 upper = IntT::zero_init();
